@@ -22,7 +22,7 @@ inductive Op
   deriving DecidableEq, Repr, Inhabited
 
 inductive Pc
-  | none | start | finished
+  | start | finished
   | mSpawn (i : Nat) | mJoin (i : Nat)
   | lock (k : Nat)                 -- unique_lock lock(mutex_) of the k-th operation
   | notify (k : Nat) (res : Nat)   -- cv_.notify_all() of signal
@@ -40,6 +40,8 @@ structure State where
   value : Nat
   owner : Option Nat := none
   ws : List Nat := []
+  /-- threads 1..spawned have been created (a thread at `start` may run once it is created) -/
+  spawned : Nat := 0
   thr : List Thread
   init : Nat
   acquired : Nat := 0
@@ -48,11 +50,11 @@ structure State where
 
 def init (v : Nat) (threads : List (List Op)) : State :=
   { value := v, init := v,
-    thr := { ops := [], pc := .start } :: threads.map fun ops => { ops := ops, pc := .none } }
+    thr := { ops := [], pc := .start } :: threads.map fun ops => { ops := ops, pc := .start } }
 
 def nthreads (s : State) : Nat := s.thr.length - 1
 
-def pcOf (s : State) (t : Nat) : Pc := (s.thr[t]?.map (·.pc)).getD .none
+def pcOf (s : State) (t : Nat) : Pc := (s.thr[t]?.map (·.pc)).getD .finished
 
 def setPc (s : State) (t : Nat) (pc : Pc) : State :=
   { s with thr := s.thr.modify t fun th => { th with pc := pc } }
@@ -61,7 +63,8 @@ def ev (t : Nat) (e : String) : String := s!"{t}:{e}"
 
 def enabled (s : State) (t : Nat) : Bool :=
   match pcOf s t with
-  | .none | .finished => false
+  | .finished => false
+  | .start => t ≤ s.spawned
   | .lock _ => s.owner.isNone
   | .waiting _ => s.owner.isNone && !s.ws.contains t
   | .mJoin i => pcOf s (i + 1) == .finished
@@ -73,7 +76,7 @@ def spurCand (s : State) (t : Nat) : Bool :=
   | _ => false
 
 def unfinished (s : State) (t : Nat) : Bool :=
-  t < s.thr.length && pcOf s t != .none && pcOf s t != .finished
+  t < s.thr.length && t ≤ s.spawned && pcOf s t != .finished
 
 /-- what a thread needs to proceed in `wait(d, s)` -/
 def need : Op → Nat
@@ -93,16 +96,16 @@ def step (s : State) (t : Nat) (_c : Nat) : Option (StepOut State) :=
   | none => none
   | some th =>
   match th.pc with
-  | .none | .finished => none
+  | .finished => none
   | .start =>
-    if t = 0 then
+    if t > s.spawned then none
+    else if t = 0 then
       if nthreads s = 0 then out (setPc s t .finished) [ev t "start", ev t "end"]
       else out (setPc s t (.mSpawn 0)) [ev t "start"]
     else
       out (setPc s t (if th.ops.isEmpty then .finished else .lock 0)) [ev t "start"]
   | .mSpawn i =>
-    let s1 := setPc s (i + 1) .start
-    out (setPc s1 t (if i + 1 < nthreads s then .mSpawn (i + 1) else .mJoin 0)) [ev t s!"spawn({i + 1})"]
+    out (setPc { s with spawned := i + 1 } t (if i + 1 < nthreads s then .mSpawn (i + 1) else .mJoin 0)) [ev t s!"spawn({i + 1})"]
   | .mJoin i =>
     if pcOf s (i + 1) == .finished then
       if i + 1 < nthreads s then out (setPc s t (.mJoin (i + 1))) [ev t s!"join({i + 1})"]
